@@ -289,7 +289,8 @@ impl Property for C03 {
             for (i, t) in case.texts.iter().enumerate() {
                 seq.push(render_pieces(&keys, t));
                 match (case.subset as usize + i) % 3 {
-                    0 => seq.push("ﷺ".repeat(2100)),
+                    // (with the debug flag a short one: a dump of 2,100 lattice positions per pass costs seconds)
+                    0 => seq.push("ﷺ".repeat(if case.subset % 16 == 1 { 30 } else { 2100 })),
                     1 => seq.push("x".repeat(MAX_INPUT + 1)),
                     _ => {}
                 }
@@ -297,7 +298,7 @@ impl Property for C03 {
             seq.extend(case.texts.iter().map(|t| render_pieces(&keys, t)));
             // every other pass runs with the debug flag (lattice and path dumps on standard output, what the command
             // line tool's -d does): the dumps walk the lattice of the CURRENT text on a tokenizer that held longer ones
-            let debug = case.subset % 8 == 1;
+            let debug = case.subset % 16 == 1;
             let _quiet = if debug { Some(crate::engine::quiet_stdout::enter()) } else { None };
             let r = guarded(|| {
                 let mut tok = StatefulTokenizer::create(&dict, debug, sudachi::analysis::Mode::C);
